@@ -175,13 +175,9 @@ func runC17(w *World, r *Report) {
 	r.rule("both-sides-listed", "in save and remove both trx.IssuerAddress and trx.ReceiverAddress flow through encodeAddressKey into the key of a per-address list update", 4)
 	for _, fn := range []*ssa.Function{save, rem} {
 		keys := map[string]bool{}
-		instrsOf(fn, func(in ssa.Instruction) {
-			c, ok := in.(ssa.CallInstruction)
-			if !ok || memCall(c) != "Set" {
-				return
-			}
-			_, args := callArgs(c)
-			for _, o := range origins(args[0]) {
+		for _, d := range deepCalls(fn, func(c ssa.CallInstruction) bool { return memCall(c) == "Set" }, deepDepth) {
+			_, args := callArgs(d.c)
+			for _, o := range origins(d.argValue(args[0])) {
 				if kc, ok := o.(*ssa.Call); ok && strings.HasSuffix(calleeName(kc), ".encodeAddressKey") {
 					p := pathOf(kc.Call.Args[0])
 					if i := strings.LastIndex(p, "."); i >= 0 {
@@ -189,7 +185,7 @@ func runC17(w *World, r *Report) {
 					}
 				}
 			}
-		})
+		}
 		for _, side := range []string{"IssuerAddress", "ReceiverAddress"} {
 			r.check(keys[side], "both-sides-listed", shortFn(fn)+"/"+side, w.Pos(fn.Pos()),
 				"the list stored under encodeAddressKey(trx."+side+") is updated", "no mem.Set whose key originates from encodeAddressKey(trx."+side+")")
